@@ -773,6 +773,25 @@ func runJrnl3(c *Ctx) {
 		nAccept++
 		key := "hot:" + pathSig(lp, 99)
 		var missing []string
+		// the verdict may depend on the magic and the sector size only (and on how much could be read)
+		for _, l := range lp.Lits {
+			for _, part := range strings.Split(l.Subject, "−") {
+				if !strings.HasPrefix(part, base+".") {
+					continue
+				}
+				name := strings.TrimPrefix(part, base+".")
+				if i := strings.IndexAny(name, "[."); i >= 0 {
+					name = name[:i]
+				}
+				f, ok := byName[name]
+				if !ok || !((f.Offset == 0 && f.Size == 8) || (f.Offset == 20 && f.Size == 4)) {
+					missing = append(missing, fmt.Sprintf("independence from the journal header field at offset %d (%s): SQLite treats a journal with a valid header and a complete first sector as hot whatever its page count, nonce or initial size say — a first transaction on an empty database has page count 0 and still must be rolled back", f.Offset, l))
+				}
+			}
+		}
+		if len(lp.Unknown) > 0 {
+			missing = append(missing, fmt.Sprintf("independence from unrecognised conditions %v", lp.Unknown))
+		}
 		if !lp.Holds("call:os.Open#1", token.EQL, "nil") {
 			missing = append(missing, "journal opened")
 		}
